@@ -75,7 +75,8 @@ def key_projection(P, b, depth=0):
 class Shapes:
     """shape of the value sequence an impl of `trait` (Hash: fed to the hasher; Ord: compared lexicographically) works on"""
 
-    def __init__(self, P, owned, trait='hash::Hash', method='hash', erase_option=False):
+    def __init__(self, P, owned, trait='hash::Hash', method='hash', erase_option=False, canon=None):
+        self.canon = canon or {}        # types whose impl is decided semantically elsewhere: ty -> function giving its shape
         self.P = P
         self.owned = owned
         self.hash_impls = trait_impls(P, trait)
@@ -110,6 +111,8 @@ class Shapes:
         return res
 
     def _of_adt(self, ty, depth):
+        if ty in self.canon:
+            return self.canon[ty](self, depth)
         ims = self.hash_impls.get(ty) or [im for k, ims2 in self.hash_impls.items() for im in ims2 if re.sub(r"<'[^>]*>$", '', k) == ty]
         if not ims:
             return ('nohash', ty)
